@@ -25,11 +25,13 @@ pub mod c11;
 pub mod c12;
 pub mod c13;
 pub mod c14;
+pub mod c14s;
 pub mod c15;
 pub mod c18;
 pub mod c19;
 pub mod c19_race;
 pub mod c19_worker;
+pub mod c19_producer;
 pub mod c20;
 pub mod c16;
 pub mod c16_structs;
